@@ -141,7 +141,9 @@ P = {
             "Theorems request/response_entries_agree, parse_headers_agrees (position independence of the header reference), "
             "request/response_header_part (Thm/C16.v); with_config_wrappers_as_translated: the two parse_with_config wrappers "
             "(mem::take of self.headers, the pointer casts, the core call with its Result as a value, the restore in the "
-            "non-Complete arm) are translated from lib.rs on every run and proved equal to the model the entry-point theorems use.",
+            "non-Complete arm) are translated from lib.rs on every run and proved equal to the model the entry-point theorems use; "
+            "delegations_as_translated: the seven one-expression delegations (parse, parse_with_uninit_headers, ParserConfig::parse_*) "
+            "are translated too and hand buffer, array and the caller's configuration on unchanged.",
             "Coq proof (refinement corollaries + shift lemma), + pairwise entry-point differential runs"),
     "C17": ("proof",
             "Theorems complete_count, capacity_law, non_complete_restores (Thm/C17.v): exposed headers = the reference's list = the first k "
